@@ -24,7 +24,7 @@ HARNESSES = [
       assumptions=['coin values in [-2^62, 2^62]: CheckTxInputs adds a coin value to the running sum before range-checking it, so a (corrupted-database-only) value near INT64_MAX would overflow int64 in the addition itself; coins created by validated transactions are always in [0, MAX_MONEY]', 'every output value and the output sum are in [0, MAX_MONEY] (what CheckTransaction guarantees before CheckTxInputs runs; decided by C03)', 'spend height in [0, INT_MAX]', 'input i spends outpoint (hash_i, i): distinct outpoints'],
       bounds='nin,nout in 1..2 (thorough 1..3); all amounts/heights/flags symbolic full width'),
     H('cbamount', 'cbamount.cpp', 'h_cbamount', link=['validation.cpp', 'coins.cpp', 'chain.cpp', 'arith_uint256.cpp', 'uint256.cpp', 'primitives/transaction.cpp', 'primitives/block.cpp', 'script/script.cpp', 'hash.cpp', 'pow.cpp'],
-      entries=CB_ENT, tentries=CB_TENT, shadow=['nofmt', 'nopool'], noop=NOLOG, interpose=True, unwind=16, unwindset='_ZNK9base_blobILj256EE6GetHexB5cxx11Ev.0:34', memunwind=200, timeout=600, objbits=11,
+      entries=CB_ENT, tentries=CB_TENT, shadow=['nofmt', 'nopool'], noop=NOLOG, interpose=True, unwind=16, unwindset='_ZNK9base_blobILj256EE6GetHexB5cxx11Ev.0:34', memunwind=200, timeout=1500, objbits=11,
       functions=['Chainstate::ConnectBlock (whole function; observed: the bad-cb-amount verdict)', 'GetBlockSubsidy (real)', 'CTransaction::GetValueOut', 'MoneyRange on accumulated fees', 'CBlockIndex::GetAncestor/BuildSkip', 'GetBlockScriptFlags', 'real CCoinsViewCache over an empty base'],
       stubs=['Consensus::CheckTxInputs -> true with a symbolic fee in [0, MAX_MONEY] (its own rules: harness txinputs), records the height it was given', 'CheckInputScripts -> recorder, passes', 'CheckBlock, SequenceLocks -> true; GetTransactionSigOpCost -> 0; UpdateCoins, WriteBlockUndo -> counters',
              'GetBlockProofEquivalentTime -> 0 (unreached: assumevalid disabled)', 'CBlockHeader::GetHash / CTransaction::ComputeHash -> constants', 'phantom ChainstateManager/Chainstate/CChainParams as in C57 (assumevalid disabled); nSubsidyHalvingInterval symbolic 1..8', 'logging emptied; tinyformat -> empty strings; PoolAllocator -> operator new'],
